@@ -181,6 +181,9 @@ class _Entry:
     def is_symlink(self):
         return False
 
+    def stat(self, **kw):
+        return os.stat(self.path)
+
     def __fspath__(self):
         return self.path
 
@@ -231,10 +234,45 @@ def install(fs: SimFS, patch_resources: bool = True) -> None:
             return _Scan(_Entry(s, n) for n in FS.listdir(s))
         return _real_scandir(path)
 
+    import stat as _stat
+
+    real_stat, real_lstat, real_access = os.stat, os.lstat, os.access
+
+    def _fake_stat(s):
+        if FS.is_dir(s):
+            mode, size = _stat.S_IFDIR | 0o555, 0
+        elif FS.is_file(s):
+            d, _, n = s.rpartition("/")
+            mode, size = _stat.S_IFREG | 0o444, len(FS.dirs[d][n])
+        else:
+            raise FileNotFoundError(errno.ENOENT, "No such simulated file or directory", s)
+        return os.stat_result((mode, 1, 1, 1, 0, 0, size, 0, 0, 0))
+
+    def sim_stat(path, *a, **k):
+        s = _under(path)
+        if s is not None:
+            return _fake_stat(s)
+        return real_stat(path, *a, **k)
+
+    def sim_lstat(path, *a, **k):
+        s = _under(path)
+        if s is not None:
+            return _fake_stat(s)
+        return real_lstat(path, *a, **k)
+
+    def sim_access(path, mode, *a, **k):
+        s = _under(path)
+        if s is not None:
+            return (FS.is_dir(s) or FS.is_file(s)) and not (mode & os.W_OK)
+        return real_access(path, mode, *a, **k)
+
     builtins.open = sim_open
     io.open = sim_open
     os.listdir = sim_listdir
     os.scandir = sim_scandir
+    os.stat = sim_stat
+    os.lstat = sim_lstat
+    os.access = sim_access
     if patch_resources:
         global _real_files
         import importlib.resources as ir
